@@ -452,7 +452,7 @@ def _own(pid, sig):
 
 
 def cdrv_run(ctx, name, variant, san, what, scale=1.0, shards=None, gen_extra=None, wrapper=None, env_extra=None,
-             exe=None, timeout=3600, trace=False, exe_args=None):
+             exe=None, timeout=3600, trace=False, exe_args=None, adopt=None):
     """Run `mon gen-cscript ... | cdrv` in `shards` parallel pairs. Folds violations whose
     signature belongs to ctx.pid; signatures of other properties are only noted."""
     import cbuild
@@ -511,6 +511,8 @@ def cdrv_run(ctx, name, variant, san, what, scale=1.0, shards=None, gen_extra=No
                 m = re.match(r"V idx=(\d+) sig=(\S+) detail=(.*)", line)
                 idx, sig, detail = m.groups()
                 nviol += 1
+                if not _own(ctx.pid, sig) and adopt is not None and adopt(sig):
+                    sig = "%s/via/%s" % (ctx.pid, sig)
                 if _own(ctx.pid, sig):
                     ctx.add_violation(sig, "[%s] %s" % (name, detail),
                                       {"kind": "cdrv", "variant": variant, "san": san, "what": what, "idx": int(idx), "gen_extra": gen_extra,
